@@ -1,7 +1,7 @@
 """C20 — compiled and interpreted execution agree (structural clauses)."""
 from . import scopes
 from ..core.report import DOMAIN_D
-from ..rules import eager, buffers, aabbtree, safediv, unpack, misc2, defined
+from ..rules import generic2, eager, buffers, aabbtree, safediv, unpack, misc2, defined
 from .common import e1
 
 
@@ -33,4 +33,5 @@ def run(idx, rep, tier):
     rep.extra["njit_functions"] = len(njit)
     rep.extra["eager_functions"] = len(eagerf)
     misc2.r_dupcond(idx, rep, [m.name for m in idx.lib_modules()], floor=3)
+    generic2.r_guardafteruse(idx, rep, [m.name for m in idx.lib_modules()], floor=8)
     unpack.r_unpack(idx, rep, floor=106)
